@@ -347,8 +347,9 @@ class _Hit:
 
 
 def exc_text(err) -> str:
-    text = type(err).__name__ + ":" + str(err)[:70]
-    return "".join(ch if ch.isalnum() or ch in " :_-.()[]" else "'" for ch in text)
+    """ exception type and the words of its message (numbers and punctuation dropped, so that one cause is one clause) """
+    words = "".join(ch if ch.isalpha() else " " for ch in str(err)).split()
+    return type(err).__name__ + ":" + " ".join(words[:7])
 
 
 def build_record(uni: dict, hist: list, seed: int = 0):
@@ -503,7 +504,7 @@ def project_record(record, contents: dict = None) -> dict:
         "feats": feats,
         "protos": [dict(entry(p), core=project.loc(p.core_location), num=_num(record.get_protocluster_number, p)) for p in protos],
         "subs": [dict(entry(s), num=_num(record.get_subregion_number, s)) for s in subs],
-        "cands": [dict(entry(c), core=project.loc(c.core_location), num=_num(record.get_candidate_cluster_number, c),
+        "cands": [dict(entry(c), num=_num(record.get_candidate_cluster_number, c),
                        protos=[_position(protos, p) for p in c.protoclusters]) for c in cands],
         "regions": [dict(entry(r), num=_num(record.get_region_number, r),
                          cands=[_position(cands, c) for c in r.candidate_clusters],
@@ -627,7 +628,7 @@ def random_universe(rng) -> dict:
         if roll < 0.3:
             ext = span(max(1, length // 3))
             areas.append({"kind": "sub", "core": ext, "extent": ext, "product": "sub", "pay": rng.choice([0, 0, 1])})
-        elif roll < 0.42 and any(a["kind"] == "proto" for a in areas):
+        elif roll < 0.37 and any(a["kind"] == "proto" for a in areas):
             # same coordinates as an earlier protocluster, another product
             twin = rng.choice([a for a in areas if a["kind"] == "proto"])
             areas.append({"kind": "proto", "core": twin["core"], "extent": twin["extent"],
@@ -808,7 +809,8 @@ CONSTANTS
   Faithful = %(faithful)s
 %(checks)s
 """
-MC_INVARIANTS = ["ExtractsWellFormed", "ShiftPreservesBases", "ReloadGivesOneRegion", "ModelExtractAccepted", "MembersAreInside"]
+MC_INVARIANTS = ["ExtractsWellFormed", "ShiftPreservesBases", "ShiftIsRingShift", "ReloadGivesOneRegion", "ModelExtractAccepted",
+                 "MembersAreInside"]
 
 
 def mc_config(max_areas: int, universes=(1, 2, 3), faithful: bool = True, invariants=None, stutter: bool = True) -> str:
@@ -952,3 +954,47 @@ def features(uni: dict, hist: list) -> list:
 def call_text(case: dict) -> str:
     return (f"d, exc = harness.persist.build_record(uni, hist, seed={case['seed']}); record = d.record  "
             f"with uni={json.dumps(case['uni'])} hist={json.dumps(case['hist'])}")
+
+
+def _inside(region_loc: dict, loc: dict) -> bool:
+    return all(any(rs <= s and e <= re for rs, re in region_loc["parts"]) for s, e in loc["parts"])
+
+
+def _consecutive(numbers: list) -> bool:
+    return not numbers or sorted(numbers) == list(range(min(numbers), min(numbers) + len(numbers)))
+
+
+def region_features(before: dict, number: int) -> list:
+    """ feature literals of one region of the projected full record (the input of the write) """
+    region = before["regions"][number - 1]
+    feats = []
+    cross = len(region["loc"]["parts"]) > 1
+    feats.append("region_spans_origin" if cross else "region_in_one_piece")
+    if number > 1:
+        feats.append("later_region")
+    cands = [c for c in region["cands"] if c > 0]
+    subs = [s for s in region["subs"] if s > 0]
+    protos = sorted({p for c in cands for p in before["cands"][c - 1]["protos"] if p > 0})
+    if cands and min(cands) > 1:
+        feats.append("first_candidate_number_above_1")
+    if subs and min(subs) > 1:
+        feats.append("first_subregion_number_above_1")
+    if protos and min(protos) > 1:
+        feats.append("first_protocluster_number_above_1")
+    if not (_consecutive(cands) and _consecutive(subs) and _consecutive(protos)):
+        feats.append("numbers_not_consecutive")
+    if sum(e - s for s, e in region["loc"]["parts"]) == before["L"]:
+        feats.append("region_covers_whole_record")
+    everything = before["feats"] + before["protos"] + before["subs"] + before["cands"]
+    spanning = [f for f in everything if len(f["loc"]["parts"]) > 1 and f["loc"]["parts"][0][0] > f["loc"]["parts"][-1][0]
+                or (len(f["loc"]["parts"]) > 1 and f["loc"]["strand"] == -1 and f["loc"]["parts"][0][0] < f["loc"]["parts"][-1][0]
+                    and f["loc"]["parts"][0][0] == 0)]
+    if cross and spanning:
+        feats.append("holds_origin_spanning_feature")
+    if cross and any(not _inside(region["loc"], f["loc"]) for f in spanning):
+        feats.append("origin_spanning_feature_partly_outside")
+    if cross and any(f["aux"] and _inside({"parts": region["loc"]["parts"][1:]}, f["loc"]) for f in before["feats"]):
+        feats.append("prepeptide_after_origin")
+    if any(f["aux"] and _inside(region["loc"], f["loc"]) for f in before["feats"]):
+        feats.append("holds_prepeptide")
+    return feats
